@@ -368,7 +368,13 @@ func genObjectCase(t *rapid.T) Case {
 	elems := genObjElems(t)
 	list := "[" + strings.Join(elems, ", ") + "]"
 	c := Case{Add: rapid.SampledFrom([]string{"", "&", "~", "="}).Draw(t, "add"), Form: rapid.IntRange(0, 2).Draw(t, "form")}
-	switch rapid.IntRange(0, 3).Draw(t, "recvkind") {
+	switch rapid.IntRange(0, 6).Draw(t, "recvkind") {
+	case 4: // typed descendant of Arr whose prototype has its own _iter (elements in reverse order)
+		c.Recv = "Arr.bear({_iter: m{self[::-1]._iter}}).new(" + list + ")"
+	case 5: // an object that is iterable only through its own _iter
+		c.Recv = "{|es| {_iter: m{es._iter}, a: 1}}(" + list + ")"
+	case 6: // child of an array with its own _iter (every second element)
+		c.Recv = list + ".bear({_iter: m{self[::2]._iter}})"
 	case 0: // iterator literal over the same elements
 		c.Recv = fmt.Sprintf("{|es| <{|i| yield es[i] if i < %d; recur(i + 1)}>.new(0)}(%s)", len(elems), list)
 	case 1: // typed descendant of Arr
